@@ -5,6 +5,8 @@ import (
 	"strings"
 	"sync"
 
+	"github.com/go-fed/activity/pub"
+
 	ap "verif/apmodel"
 	"verif/mc"
 )
@@ -225,6 +227,34 @@ func C10(tier string) int {
 			}
 		}
 	}
+	// activity types the library has no default handling for: the APPLICATION's callback decides that
+	// an object / target is required by returning the documented sentinel error
+	for _, side := range []string{"PostInbox", "PostOutbox"} {
+		for _, t := range []string{"Invite", "Offer", "Listen", "Like", "Add"} {
+			for _, sentinel := range []error{pub.ErrObjectRequired, pub.ErrTargetRequired} {
+				for _, mode := range []ap.CallbackMode{ap.CBNone, ap.CBWrapped, ap.CBOther} {
+					if (t == "Like" || t == "Add") == (mode == ap.CBNone) {
+						continue // handled types need an application hook to reach the application; unhandled ones reach DefaultCallback
+					}
+					sentinel, mode := sentinel, mode
+					var d M
+					url := inbox(Alice)
+					if side == "PostInbox" {
+						d = Doc(t, RAct, "actor", Carol, "to", Alice, "object", Note1, "target", Col1)
+					} else {
+						d = Doc(t, "", "actor", Alice, "to", Carol, "object", Note1, "target", Col1)
+						url = outbox(Alice)
+					}
+					if t != "Like" && t != "Add" {
+						delete(d, "object")
+						delete(d, "target")
+					}
+					fams = append(fams, fam{fmt.Sprintf("%s-%s-application-says-%v-mode%d", side, t, sentinel == pub.ErrObjectRequired, mode),
+						&Scenario{Name: "req-app/" + t, Kind: ap.Both, Entry: side, URL: url, Body: d, Tweak: func(a *ap.App) { a.CBError, a.Callbacks = sentinel, mode }}, "[400]", "required-by-application"})
+				}
+			}
+		}
+	}
 	{
 		var viols []c10viol
 		classes := map[string]struct{}{}
@@ -396,11 +426,12 @@ func C10(tier string) int {
 		mu.Unlock()
 		add(evals, classes, outs, viols, nil)
 	})
+	getHistories(res, "C10", map[bool]int{false: 3, true: 4}[res.Thorough()])
 	res.Extra["scheme_variant_scenarios"] = nScheme
 	res.Extra["fault_bound_completed"] = bound
 	res.Extra["request_product"] = len(cases)
 	res.Extra["id_and_required_member_cases"] = len(fams)
-	res.Rule = fmt.Sprintf("(1) C07's request product (%d requests); (2) %d inbox/outbox bodies varying 'id' over {absent,null,\"\",number,object,array,relative,absolute-path,absolute IRI} and object/target over {absent,[]} for every type that requires them; (3) each of %d corpus scenarios fault-free and with every choice of <= %d failing seam calls; (4) each corpus scenario again through PostInboxScheme / PostOutboxScheme / NewActivityStreamsHandlerScheme in a world whose own IRIs are http://: same outcome, status, Location, body and final state as the default entry point (modulo the scheme), trichotomy under single faults; every outbox scenario also with the endpoint scheme and the scheme of the minted ids differing (http / https and https / http): same status, Location = newest outbox entry = stored id; oracle = counting ResponseWriter + return values; distinct = (case class, outcome) or (scenario, choice list)", len(cases), len(fams), len(corpus), bound)
+	res.Rule = fmt.Sprintf("(1) C07's request product (%d requests); (2) %d inbox/outbox bodies varying 'id' over {absent,null,\"\",number,object,array,relative,absolute-path,absolute IRI} and object/target over {absent,[]} for every type that requires them, and activities whose application callback (DefaultCallback for unhandled types, a wrapped or 'other' hook for handled ones) answers with the documented ErrObjectRequired / ErrTargetRequired sentinel; (3) each of %d corpus scenarios fault-free and with every choice of <= %d failing seam calls; (4) each corpus scenario again through PostInboxScheme / PostOutboxScheme / NewActivityStreamsHandlerScheme in a world whose own IRIs are http://: same outcome, status, Location, body and final state as the default entry point (modulo the scheme), trichotomy under single faults; every outbox scenario also with the endpoint scheme and the scheme of the minted ids differing (http / https and https / http): same status, Location = newest outbox entry = stored id; (5) every sequence of 2-3 (thorough 4) read requests over {handler: live value, Tombstone, value with collections, missing, value with hidden recipients, non-ActivityPub; GetInbox; GetOutbox} on ONE application and one handler value, each answered as when served alone; oracle = counting ResponseWriter + return values; distinct = (case class, outcome) or (scenario, choice list)", len(cases), len(fams), len(corpus), bound)
 	res.Assumptions = []string{"a denying Authenticate* writes its own 401 (counted as the one status of that request)", "ResponseWriter itself never fails",
 		"Announce/Accept/Reject without object are not asserted (neither code nor documentation requires one)"}
 	return res.Finish()
